@@ -210,7 +210,30 @@ PruneLaws ==
   /\ LET b == Prune(BuildEmpty(tree)) IN b.lv = tree.lv /\ b.ll = tree.ll /\ b.en = tree.en /\ b.oe = tree.oe
   /\ WellFormed(u)
 
+----------------------------------------------------------------------------
+(* C32: PruneConfigFalse visits every field and clears those whose schema    *)
+(* node is config false -- except, in compressed code, the state leaves that *)
+(* stand for a configuration leaf (in this corpus every state leaf other     *)
+(* than the DerivedState ones mirrors a configuration leaf).                 *)
+
+IsDerived(x) == \E d \in DerivedState : IsPrefix(d, SchemaOf(x))
+
+\* operational: clear each derived node (with everything below it); nothing is pruned upwards
+PruneCF(t) ==
+  [ lv |-> Restrict(t.lv, {x \in DOMAIN t.lv : ~IsDerived(x)}),
+    ll |-> Restrict(t.ll, {x \in DOMAIN t.ll : ~IsDerived(x)}),
+    en |-> t.en, oe |-> t.oe,
+    ct |-> {x \in t.ct : ~IsDerived(x)} ]
+
+ConfigFalseLaws ==
+  LET u == PruneCF(tree) IN
+  /\ \A x \in (DOMAIN u.lv) \cup (DOMAIN u.ll) : ~IsDerived(x)                        \* no derived state remains
+  /\ \A x \in DOMAIN tree.lv : ~IsDerived(x) => (x \in DOMAIN u.lv /\ u.lv[x] = tree.lv[x])  \* config values unchanged
+  /\ \A x \in DOMAIN tree.ll : ~IsDerived(x) => (x \in DOMAIN u.ll /\ u.ll[x] = tree.ll[x])
+  /\ u.en = tree.en /\ u.oe = tree.oe
+  /\ PruneCF(u) = u
+
 EmitTree == PrintT("TREE " \o ToJson([t |-> TreeJson(tree), pruned |-> TreeJson(Prune(tree)),
-                                      built |-> TreeJson(BuildEmpty(tree))]))
+                                      built |-> TreeJson(BuildEmpty(tree)), pcf |-> TreeJson(PruneCF(tree))]))
 
 =============================================================================
